@@ -142,3 +142,21 @@ package arvados
 //@ func storedSegment.ReadAt property C08,C03 safety -bounds
 //@   requires off >= 0 && se.length >= 0 && se.offset >= 0
 //@   calls fsBackend.ReadAt#*: requires $0 == se.locator && $2 >= se.offset && $2 + len($1) <= se.offset + se.length && len($1) <= len(old(p))
+
+//@ iface segment.Slice
+//@   modifies nothing
+//@ func memSegment.Len property C08 pure
+//@   modifies nothing
+//@   ensures result == len(me.buf)
+
+// truncate: the recorded size becomes the requested size and every change of
+// size invalidates cached pointers of other handles (repacked is bumped),
+// growing included.
+//@ func filenode.truncate property C08
+//@   requires fnValid(fn) && size >= 0
+//@   ensures result == nil && fn.fileinfo.size == size
+//@   ensures size != old(fn.fileinfo.size) ==> fn.repacked == old(fn.repacked) + 1
+//@   ensures size == old(fn.fileinfo.size) ==> fn.repacked == old(fn.repacked)
+//@   loop 1: invariant fn == old(fn) && size == old(size) && fn.repacked == old(fn.repacked) + 1 && fn.fileinfo.size == old(fn.fileinfo.size) && fn.segments == old(fn.segments)
+//@   loop 1: invariant ptr.segmentIdx <= i && 0 <= ptr.segmentIdx && (size < old(fn.fileinfo.size) ==> ptr.segmentIdx < len(fn.segments) && 0 <= ptr.segmentOff)
+//@   loop 2: invariant fn == old(fn) && size == old(size) && fn.repacked == old(fn.repacked) + 1 && fn.fileinfo.size <= size && size > old(fn.fileinfo.size)
